@@ -495,3 +495,184 @@ func init() {
 		},
 	})
 }
+
+// ---- C08-f: a slice handed out from an object's own state is not reordered by the borrower ----
+
+// exposedResults: result indexes of fn through which it returns a slice that it
+// also keeps in a field of its receiver (stored into, or loaded from, the field).
+func exposedResults(fn *ssa.Function) map[int]*types.Var {
+	out := map[int]*types.Var{}
+	if fn.Signature.Recv() == nil || len(fn.Params) == 0 {
+		return out
+	}
+	recv := fn.Params[0]
+	fieldOf := func(addr ssa.Value) *types.Var {
+		fa, ok := addr.(*ssa.FieldAddr)
+		if !ok || fa.X != ssa.Value(recv) {
+			return nil
+		}
+		return structField(fa.X.Type(), fa.Field)
+	}
+	kept := map[ssa.Value]*types.Var{}
+	for _, b := range fn.Blocks {
+		for _, in := range b.Instrs {
+			switch x := in.(type) {
+			case *ssa.Store:
+				if f := fieldOf(x.Addr); f != nil {
+					if _, ok := x.Val.Type().Underlying().(*types.Slice); ok {
+						for v := range backward(x.Val, func(v ssa.Value) bool { _, isCall := v.(*ssa.Call); return !isCall }) {
+							kept[v] = f
+						}
+						kept[x.Val] = f
+					}
+				}
+			case *ssa.UnOp:
+				if x.Op == token.MUL {
+					if f := fieldOf(x.X); f != nil {
+						if _, ok := x.Type().Underlying().(*types.Slice); ok {
+							kept[x] = f
+						}
+					}
+				}
+			}
+		}
+	}
+	for _, ret := range returnsOf(fn) {
+		for i := range ret.Results {
+			v := retVal(ret, i)
+			if v == nil {
+				continue
+			}
+			if _, ok := v.Type().Underlying().(*types.Slice); !ok {
+				continue
+			}
+			if f, ok := kept[v]; ok {
+				out[i] = f
+				continue
+			}
+			if ph, ok := v.(*ssa.Phi); ok {
+				for _, e := range ph.Edges {
+					if f, ok := kept[e]; ok {
+						out[i] = f
+					}
+				}
+			}
+		}
+	}
+	return out
+}
+
+// reorderedParams: indexes of slice parameters that fn sorts or overwrites in place.
+func reorderedParams(fn *ssa.Function) map[int]string {
+	out := map[int]string{}
+	for i, par := range fn.Params {
+		if _, ok := par.Type().Underlying().(*types.Slice); !ok {
+			continue
+		}
+		D := forward([]ssa.Value{par}, fwdOpts{noBinOp: true})
+		for _, b := range fn.Blocks {
+			for _, in := range b.Instrs {
+				switch x := in.(type) {
+				case *ssa.Call:
+					f := calleeFunc(x)
+					if f != nil && f.Pkg() != nil && (f.Pkg().Path() == "sort" || f.Pkg().Path() == "slices") && len(x.Call.Args) > 0 {
+						switch f.Name() {
+						case "Slice", "SliceStable", "Sort", "Stable", "Strings", "Ints", "SortFunc", "SortStableFunc", "Reverse":
+							a := x.Call.Args[0]
+							if mi, ok := a.(*ssa.MakeInterface); ok {
+								a = mi.X
+							}
+							if D[a] {
+								out[i] = "sorts it in place (" + shortObj(f) + ")"
+							}
+						}
+					}
+				case *ssa.Store:
+					if ia, ok := x.Addr.(*ssa.IndexAddr); ok && D[ia.X] {
+						out[i] = "stores into its elements"
+					}
+				}
+			}
+		}
+	}
+	return out
+}
+
+func init() {
+	register(&Rule{
+		ID: "C08-f", Template: "ownership (borrowed slice is not reordered)",
+		Doc: "The send order survives being looked at: a slice that a method returns while also keeping it in a field of its receiver (a cached result) is never handed, by any production caller, to a function that sorts or overwrites that parameter in place. ClosedSetsFinder.CommitsToSend yields commits parents-first; a borrower that re-sorts a cached list (e.g. newest first for a report) silently changes the order the object sender later reads from the same finder, and the receiver rejects children that arrive before their parents.",
+		Min: 1,
+		Run: func(p *Program, r *RuleResult) error {
+			if _, err := p.SSAFunc("pkg/api/utils.(*ClosedSetsFinder).CommitsToSend"); err != nil {
+				return err
+			}
+			fns := p.ProdFuncs()
+			r.Analysed = len(fns)
+			exposers := map[*ssa.Function]map[int]*types.Var{}
+			mutators := map[*ssa.Function]map[int]string{}
+			for _, fn := range fns {
+				if e := exposedResults(fn); len(e) > 0 {
+					exposers[fn] = e
+				}
+				if m := reorderedParams(fn); len(m) > 0 {
+					mutators[fn] = m
+				}
+			}
+			r.note("methods returning a slice they also keep in a field: %d; functions that reorder a slice parameter in place: %d", len(exposers), len(mutators))
+			n := 0
+			for _, fn := range fns {
+				for _, b := range fn.Blocks {
+					for _, in := range b.Instrs {
+						call, ok := in.(*ssa.Call)
+						if !ok {
+							continue
+						}
+						sc := call.Call.StaticCallee()
+						if sc == nil || exposers[sc] == nil {
+							continue
+						}
+						// values of the exposed results in the caller
+						var exposed []ssa.Value
+						if sc.Signature.Results().Len() == 1 {
+							exposed = append(exposed, call)
+						} else {
+							for _, ref := range *call.Referrers() {
+								if ex, ok := ref.(*ssa.Extract); ok {
+									if _, isExp := exposers[sc][ex.Index]; isExp {
+										exposed = append(exposed, ex)
+									}
+								}
+							}
+						}
+						if len(exposed) == 0 {
+							continue
+						}
+						D := forward(exposed, fwdOpts{noBinOp: true})
+						eachCall(fn, func(c2 ssa.CallInstruction) {
+							m := c2.Common().StaticCallee()
+							if m == nil || mutators[m] == nil {
+								return
+							}
+							for pi, how := range mutators[m] {
+								if pi < len(c2.Common().Args) && D[c2.Common().Args[pi]] {
+									n++
+									var fld *types.Var
+									for _, f := range exposers[sc] {
+										fld = f
+									}
+									r.bad(callKey(fn, c2)+"|borrowed", p.Rel(c2.Pos()), "a slice borrowed from another object's state is not reordered",
+										fmt.Sprintf("%s hands the slice returned by %s (also kept in its field %s) to %s, which %s: the owner's later readers see the new order", funcName(fn), funcName(sc), fld.Name(), funcName(m), how))
+								}
+							}
+						})
+					}
+				}
+			}
+			if n == 0 {
+				r.ok("production|borrowed-slices", "", "a slice borrowed from another object's state is not reordered")
+			}
+			return nil
+		},
+	})
+}
